@@ -141,13 +141,21 @@ def main(run, replay=None):
         "cases = recorded steps of sessions on every zoo model along walks covering every edge of the Session state graph "
         "of the model's kind plus seeded random walks; non-trivial = distinct (model, operation, input kind, preceding action)"
     )
+    if replay and replay["case"].get("kind") == "nets":
+        from vcore import nets
+
+        return nets.replay(run, replay["case"], "C13")
     if replay:
         return replay_case(run, replay["case"], C13_VERDICTS)
     thorough = run.tier == "thorough"
     run_sessions(run, C13_VERDICTS, thorough, n_random=8 if thorough else 1, rand_len=60 if thorough else 30, cover=True, max_cover_steps=None if thorough else 700, seeds=(0, 1) if thorough else (0,))
     suite_sessions(run, C13_VERDICTS)
+    from vcore import nets
+
+    nets.run_leg(run, "C13")
     run.exhaustive = thorough
     run.assumptions = [
+        "conditioner-network leg (Nets.tla): a written tensor is one whose state-dict entry differs after the call; randomness is a difference > 1e-9 between two copies called under different generator seeds",
         "test-suite leg: the repository's tests are used as drivers only (twice: as written, and with every directly called object in evaluation mode, where the recorder repeats each deterministic call once); their own assertions play no role",
         "a side effect is observed through torch.equal / tensor version counters on caller tensors and through the state dict",
         "repeatability is judged per (operation, input kind) with the torch RNG re-seeded before every call",
